@@ -55,6 +55,71 @@ def work_lists(specs):
     return n, fails
 
 
+# ---- lists with NAMED wildcards (repeated names, names under quantifiers): brute-force reference matcher
+NAMED_ELEMS = ["a", ".", ".*", ".?", "x", "y", "x*", "x+", "x?", "y*"]
+
+
+def build_named_template(spec):
+    from pyrefact import core
+    out = []
+    for s in spec:
+        head, q = (s[0], s[1:])
+        if head == "a":
+            base = ast.Name(id="a")
+        elif head == ".":
+            base = object
+        else:
+            base = core.Wildcard(head, object, common=(q == ""))
+        out.append({"": base, "?": core.ZeroOrOne(base), "*": core.ZeroOrMany(base), "+": core.OneOrMany(base)}[q] if q else base)
+    return out
+
+
+def reference_named(spec, letters):
+    """declarative reading: choose a count per element (1 / 0..1 / 0.. / 1..), expand, and require every occurrence of a name to be the same letter"""
+    def go(i, j, env):
+        if i == len(spec):
+            return j == len(letters)
+        head, q = spec[i][0], spec[i][1:]
+        lo, hi = {"": (1, 1), "?": (0, 1), "*": (0, len(letters) - j), "+": (1, len(letters) - j)}[q]
+        for c in range(lo, min(hi, len(letters) - j) + 1):
+            e = dict(env)
+            ok = True
+            for ch in letters[j:j + c]:
+                if head == "a":
+                    ok = ok and ch == "a"
+                elif head != ".":
+                    if e.setdefault(head, ch) != ch:
+                        ok = False
+                if not ok:
+                    break
+            if ok and go(i + 1, j + c, e):
+                return True
+        return False
+    return go(0, 0, {})
+
+
+def work_named_lists(specs):
+    from pyrefact import core
+    fails = []
+    n = 0
+    lists = [list(t) for k in range(0, 5) for t in itertools.product("ab", repeat=k)]
+    for spec in specs:
+        tpl = build_named_template(spec)
+        for letters in lists:
+            nodes = [ast.Name(id=c) for c in letters]
+            n += 1
+            try:
+                got = bool(core.match_template(nodes, tpl))
+            except Exception as ex:  # noqa: BLE001
+                fails.append({"cls": f"named-list:raises:{type(ex).__name__}", "what": f"match_template({letters}, {spec}) raised {type(ex).__name__}: {ex}"})
+                break
+            want = reference_named(spec, letters)
+            if got != want:
+                fails.append({"cls": "named-list:disagrees-with-reference", "what": f"template {spec} on {''.join(letters)!r}: match_template says {got}, the declarative reading (some consistent expansion exists) says {want}"})
+                break
+    return n, fails
+
+
 NAMED = [
     ("{{x}} + {{x}}", "a + a", True), ("{{x}} + {{x}}", "a + b", False), ("{{x}} + {{y}}", "a + b", True), ("{{x}} + {{y}}", "a + a", True),
     ("f({{x}}, {{x}})", "f(1, 1)", True), ("f({{x}}, {{x}})", "f(1, 2)", False), ("f({{x}}, {{y}})", "f(1, 2)", True),
@@ -142,6 +207,10 @@ def run(tier, seed):
     chunks = [specs[i::32] for i in range(32)]
     r1 = P.pool_map(work_lists, chunks, chunksize=1)
     r2 = P.pool_map(work_named, NAMED, chunksize=4)
+    nspecs = [list(t) for k in range(1, 5) for t in itertools.product(NAMED_ELEMS, repeat=k) if any(e[0] in "xy" for e in t)]
+    if tier == "quick":
+        nspecs = [s for s in nspecs if len(s) <= 3] + rnd.sample([s for s in nspecs if len(s) == 4], 800)
+    r4 = P.pool_map(work_named_lists, [nspecs[i::32] for i in range(32)], chunksize=1)
     srcs = P.corpus()
     sin = rnd.sample(srcs, 150 if tier == "quick" else len(srcs))
     r3 = P.pool_map(work_search, sin, chunksize=4)
@@ -161,6 +230,14 @@ def run(tier, seed):
             fl.append({"id": f"{f['cls']}::{c[0]}::{c[1]}", "cls": f["cls"], "input": f"{c[0]!r} on {c[1]!r}", "observed": f["what"], "required": "declarative reading of named / quantified wildcards"})
     out.append({"name": "c12-named-wildcards", "function": "core.compile_template, match_template, pattern_matching.findall", "contract": "same tree for every occurrence of a named wildcard; ?, *, + in argument / element / body lists; literals match themselves",
                 "space": f"{len(NAMED)} hand-written (pattern, source, expected) cases", "bound": "enumerated cases", "evaluations": len(NAMED), "distinct_nontrivial": len(NAMED), "exhaustive": True, "failures": P.cap(fl), "samples": [repr(NAMED[0])]})
+    fl, n = [], 0
+    for cnt, fs in r4:
+        n += cnt
+        for f in fs:
+            fl.append({"id": f"{f['cls']}::{f['what'][:100]}", "cls": f["cls"], "input": f["what"], "observed": f["what"], "required": "matches <=> some consistent expansion exists"})
+    out.append({"name": "c12-named-wildcards-in-lists", "function": "core.match_template, _match_list (backtracking over expansions), merge_matches", "contract": "match_template(nodes, template) non-empty <=> brute-force reference (all count vectors, consistent bindings)",
+                "space": f"{len(nspecs)} templates of length <= 4 over {NAMED_ELEMS} containing a named wildcard ({'all' if tier == 'thorough' else 'all of length <= 3, 800 of length 4'}) x all 31 lists of length <= 4 over a, b",
+                "bound": "template length <= 4, list length <= 4", "evaluations": n, "distinct_nontrivial": len(nspecs), "exhaustive": tier == "thorough", "failures": P.cap(fl), "samples": [str(nspecs[7]), str(nspecs[-1])]})
     fl, n = [], 0
     for s, (cnt, fs) in zip(sin, r3):
         n += cnt
